@@ -31,8 +31,36 @@ def _mentions(e: ast.AST, name: str) -> bool:
     return any(isinstance(x, ast.Name) and x.id == name for x in ast.walk(e))
 
 
-def index_like(fn: ast.AST, var: str) -> list[tuple[str, ast.AST, ast.AST]]:
-    """(kind, expression, site) for every index-like use of `var` in fn (locals expanded)."""
+def _subst(e: ast.AST, mapping: dict[str, ast.AST]) -> ast.AST:
+    import copy
+
+    class T(ast.NodeTransformer):
+        def visit_Name(self, n: ast.Name) -> ast.AST:
+            if isinstance(n.ctx, ast.Load) and n.id in mapping:
+                return copy.deepcopy(mapping[n.id])
+            return n
+
+    return T().visit(copy.deepcopy(e))
+
+
+def helper_calls(mod, fn: ast.AST) -> list[tuple[ast.Call, ast.AST, dict[str, ast.AST]]]:
+    """Calls in fn to module-level helper functions of the same module: (call, helper def, param -> argument)."""
+    out = []
+    for c in ast.walk(fn):
+        if isinstance(c, ast.Call) and isinstance(c.func, ast.Name) and c.func.id in mod.functions and "." not in c.func.id:
+            h = mod.functions[c.func.id]
+            params = [a.arg for a in h.args.posonlyargs + h.args.args]
+            mapping = {p: expand(a, c) for p, a in zip(params, c.args)}
+            for k in c.keywords:
+                if k.arg:
+                    mapping[k.arg] = expand(k.value, c)
+            out.append((c, h, mapping))
+    return out
+
+
+def index_like(fn: ast.AST, var: str, mod=None, _depth: int = 2) -> list[tuple[str, ast.AST, ast.AST]]:
+    """(kind, expression, site) for every index-like use of `var` in fn (locals expanded; module-level
+    helper functions followed one or two calls deep with their parameters substituted)."""
     out = []
     for n in ast.walk(fn):
         if isinstance(n, ast.BinOp) and isinstance(n.op, ast.Pow):
@@ -48,6 +76,12 @@ def index_like(fn: ast.AST, var: str) -> list[tuple[str, ast.AST, ast.AST]]:
             s = expand(n.slice, n)
             if _mentions(s, var):
                 out.append(("subscript", s, n))
+    if mod is not None and _depth > 0:
+        for call, h, mapping in helper_calls(mod, fn):
+            for p, arg in mapping.items():
+                if _mentions(arg, var):
+                    for kind, expr, site in index_like(h, p, mod, _depth - 1):
+                        out.append((kind, _subst(expr, mapping), site))
     return out
 
 
@@ -101,7 +135,7 @@ def run(chk) -> None:
         if call is None:
             continue  # inherits __call__
         var = call.args.args[1].arg
-        uses = index_like(call, var)
+        uses = index_like(call, var, mrp)
         # forwarding to inner strategies must pass the number on unchanged
         for c in ast.walk(call):
             if isinstance(c, ast.Call) and c.args and not isinstance(c.func, ast.Attribute) or (isinstance(c, ast.Call) and isinstance(c.func, ast.Subscript)):
